@@ -29,9 +29,11 @@ CONSTANTS Family,    \* "seq" | "edge" | "size"
           Pats,      \* set of membership patterns 1..5 (edge)
           Orders,    \* subset of {"tf", "ft"}: tags before files / files before tags (edge)
           Universe,  \* tag names that operations may mention
-          MaxBad     \* at most this many refused operations per program
+          MaxBad,    \* at most this many refused operations per program
+          Defects    \* {} = the design; {"F19a"}, {"F19b"}: the code-shaped parts behave like the unchanged code
 
-VARIABLES hist, k, done, bad
+VARIABLES hist, k, done, bad,
+          bmI, bmD   \* code-shaped byte vectors per tag: install-shaped (in family "size": size-shaped) / download-shaped
 
 Positional == Family = "size"
 
@@ -65,6 +67,22 @@ PreOps(n, p, ord) ==
 RECURSIVE Fold(_, _, _)
 Fold(mm, ops, j) == IF j > Len(ops) THEN mm ELSE Fold(ApplyOp(mm, Positional, ops[j]).st, ops, j + 1)
 
+\* the compound prefill operations as the primitive calls the driver makes
+RECURSIVE Prim(_, _)
+Prim(ops, j) ==
+  IF j > Len(ops) THEN <<>>
+  ELSE LET e == ops[j] IN
+       IF e.op = "add_files"
+       THEN [x \in 1..Len(e.files) |-> [op |-> "add_file", sz |-> <<e.files[x][1], e.files[x][2]>>, pr |-> e.files[x][3]]] \o Prim(ops, j + 1)
+       ELSE IF e.op = "assoc_set"
+       THEN [x \in 1..Len(e.files) |-> [op |-> "assoc", i |-> e.files[x], t |-> e.t]] \o Prim(ops, j + 1)
+       ELSE <<e>> \o Prim(ops, j + 1)
+ShapeI == IF Family = "size" THEN "size" ELSE "install"
+RECURSIVE FoldImpl(_, _, _, _, _)
+FoldImpl(bm, shape, mm, ops, j) ==
+  IF j > Len(ops) THEN bm
+  ELSE FoldImpl(ImplApplyOp(bm, shape, mm, ops[j]), shape, ApplyOp(mm, Positional, ops[j]).st, ops, j + 1)
+
 VARIABLE lim   \* operation budget of this program (depends on the pattern in family "edge")
 
 MCInit ==
@@ -73,8 +91,10 @@ MCInit ==
      THEN \E n \in N0, p \in Pats, ord \in Orders :
             /\ hist = PreOps(n, p, ord)
             /\ m = Fold(M0, PreOps(n, p, ord), 1)
+            /\ bmI = FoldImpl(<<>>, "install", M0, Prim(PreOps(n, p, ord), 1), 1)
+            /\ bmD = FoldImpl(<<>>, "download", M0, Prim(PreOps(n, p, ord), 1), 1)
             /\ lim = IF p = 1 THEN D ELSE D2
-     ELSE hist = <<>> /\ m = M0 /\ lim = D
+     ELSE hist = <<>> /\ m = M0 /\ lim = D /\ bmI = <<>> /\ bmD = <<>>
 
 N == NFiles(m)
 OpsSeq ==
@@ -104,12 +124,15 @@ MCNext ==
              /\ r.valid # "unspec"
              /\ bad + (IF r.valid = "yes" THEN 0 ELSE 1) <= MaxBad
              /\ m' = r.st
+             /\ bmI' = IF r.valid = "yes" THEN ImplApplyOp(bmI, ShapeI, m, e) ELSE bmI
+             /\ bmD' = IF r.valid = "yes" THEN ImplApplyOp(bmD, "download", m, e) ELSE bmD
              /\ bad' = bad + (IF r.valid = "yes" THEN 0 ELSE 1)
              /\ hist' = Append(hist, e)
         /\ k' = k + 1 /\ done' = FALSE /\ lim' = lim
      \/ /\ done' = TRUE /\ hist' = Append(hist, [op |-> "build"])
-        /\ UNCHANGED <<m, k, bad, lim>>
+        /\ UNCHANGED <<m, k, bad, lim, bmI, bmD>>
 
+\* the vectors are functions of the set model when InvCodeShaped holds, so they stay out of the view
 MCView == <<m, k, done, bad, lim>>
 
 \* ---- design-level invariants (mode "reach") ---------------------------------------------------
@@ -123,9 +146,14 @@ Cfgs ==
         [kind |-> "download", ver |-> 1, cs |-> TRUE, fl |-> 0, base |-> 0, esb |-> 0, eks |-> 16],
         [kind |-> "download", ver |-> 2, cs |-> FALSE, fl |-> 3, base |-> 0, esb |-> 0, eks |-> 16],
         [kind |-> "download", ver |-> 3, cs |-> TRUE, fl |-> 1, base |-> -3, esb |-> 0, eks |-> 16]}
-\* sizes that a container cannot hold are the generator's business, not the format's
+\* code-shaped mask maintenance refines the set model: after every operation each tag's byte vector
+\* is the canonical MSB-first mask of its members, for both remove_file algorithms
+InvCodeShaped == MasksRefine(bmI, ShapeI, m, Defects) /\ (~Positional => MasksRefine(bmD, "download", m, Defects))
+
+\* sizes that a container cannot hold are the generator's business, not the format's (install takes a u32;
+\* the size builder takes a u64 whatever the field width: with finding F19b it serialises what does not fit)
 Narrow(mm) == [mm EXCEPT !.files = [j \in 1..Len(mm.files) |-> [mm.files[j] EXCEPT !.sz = <<mm.files[j].sz[1] % 256, mm.files[j].sz[2]>>]]]
-Fits(cfg) == IF cfg.kind = "install" \/ (cfg.kind = "size" /\ cfg.ver = 2) THEN Narrow(m) ELSE m
+Fits(cfg) == IF cfg.kind = "install" \/ (cfg.kind = "size" /\ cfg.ver = 2 /\ "F19b" \notin Defects) THEN Narrow(m) ELSE m
 \* a size manifest is only built once every position named by tag_file exists
 Buildable == ~Positional \/ MembersExist
 InvFormats  == Buildable => \A cfg \in Cfgs : LET mm == Fits(cfg) IN BytesAgree(cfg, mm, ReadManifest(WriteManifest(cfg, mm)))
